@@ -95,6 +95,9 @@ def strategy(tier):
         "dist": st.sampled_from(DISTS),
         "scale": st.sampled_from([1.0, 1.0, 0.125, 100.0]),
         "seed": st.integers(0, 2 ** 31 - 1),
+        # parameter continuation: the module's p / rho / alpha attribute is multiplied by this factor before the step
+        # (as tests/test_aggregration.py does with KSFunction.rho); 1 = unchanged
+        "pfac": st.sampled_from([1.0, 1.0, 1.0, 0.5, 2.0]),
     })
 
     @st.composite
@@ -271,7 +274,8 @@ def check_case(case):
     import pymoto as pym
     agg, act, damping = case["agg"], case["act"], case["scaling"]
     datas = [make_data(s) for s in case["steps"]]
-    par = effective_param(agg, case["param"], datas)
+    pfacs = [float(st_.get("pfac", 1.0)) for st_ in case["steps"]]
+    par = effective_param(agg, case["param"] * max(pfacs), datas) / max(pfacs)    # every par*pfac stays below the overflow limit
     which = "max" if par > 0 else "min"
     labels = [agg, "param_pos" if par > 0 else "param_neg", f"steps{min(len(datas), 3)}{'+' if len(datas) > 3 else ''}"]
     if act is not None:
@@ -332,8 +336,13 @@ def check_case(case):
         bad(f"raises:init:{type(e).__name__}", repr(e))
         return sorted(set(labels)), V
     s_exp = None
+    par0 = par
     for k, x in enumerate(datas):
         s_full.state = x.copy()
+        par = par0 * pfacs[k]
+        if pfacs[k] != 1.0 or (k > 0 and pfacs[k - 1] != 1.0):
+            setattr(m_full, key, par)           # continuation of the aggregation parameter between evaluations
+            labels.append("parameter_continuation")
         try:
             m_full.response()
         except Exception as e:
